@@ -8,7 +8,7 @@ run = rep['violation']['run']
 data = base64.b64decode(run['stdin_b64'])
 args = run['args']
 def sig(a, d):
-    r = runner.run_delta(a, d, env=run['env'], mode=run['mode'], pty_size=tuple(run['pty_size']))
+    r = runner.run_delta(a, d, env=run['env'], mode=run['mode'], pty_size=tuple(run['pty_size']), **({'parent_argv': run['parent_argv']} if run.get('parent_argv') else {}))
     c = crash.classify(r)
     return c['signature'] if c else ('exit:%d' % r.rc if r.rc else None)
 target = sig(args, data)
